@@ -92,12 +92,22 @@ type roamFence struct {
 	meters  float64
 	detect  string // "" = no DETECT clause
 	scan    string // ROAM key pattern meters SCAN glob
+	offKey  bool   // re-defined to fence another key (NEARBY <key>-off ...): silent for this round's SETs
+	deleted bool   // DELCHAN / DELHOOK issued, not re-created yet
+}
+
+// a re-definition of a fence under its own name, between two SETs
+type redef struct {
+	fence   int    // index into round.fences
+	mod     string // radius | pattern | nodwell | key | same | delset | del | kind | detect
+	meters  float64
+	pattern string
 }
 
 type step struct {
 	id  string
 	p   pos
-	cat string
+	cat string // "redef": no SET, the id is an index into round.redefs
 }
 
 type entry struct {
@@ -212,7 +222,7 @@ type expectation struct {
 }
 
 // expect computes, for one fence and one SET, the direct oracle and the model's prediction.
-func expect(drv *model.Driver, f roamFence, mkey, rkey, mover string, old *pos, np pos, col map[string]pos) expectation {
+func expect(drv *model.Driver, f roamFence, mkey, rkey, mover string, old *pos, np pos, col map[string]pos, regOps []string) expectation {
 	ms := specOf(mkey, mover, np)
 	var mo verifapi.FenceObj
 	if old != nil {
@@ -257,8 +267,9 @@ func expect(drv *model.Driver, f roamFence, mkey, rkey, mover string, old *pos, 
 			}
 		}
 		req = append(req, model.H(id), model.B(inOld), model.B(inNew), bits(dOld), bits(dNew), bits(dRev))
-		// direct oracle: the property text
-		if id == mover || !idMatches(f.pattern, id) || f.detect != "" {
+		// direct oracle: the property text (a fence that is not defined at the moment, or that has
+		// been re-defined for another key, has nothing to report for this SET)
+		if id == mover || !idMatches(f.pattern, id) || f.detect != "" || f.deleted || f.offKey {
 			continue
 		}
 		wasNear := old != nil && dOld <= f.meters
@@ -287,7 +298,77 @@ func expect(drv *model.Driver, f roamFence, mkey, rkey, mover string, old *pos, 
 			e.model = append(e.model, entry{p[0], model.U(p[1]), metersText(math.Float64frombits(b))})
 		}
 	}
+	// hooks and channels are only evaluated when getQueueCandidates selects them: the registry model
+	// (Model.HookReg / HookRegOps) run over this round's history of SETCHAN / SETHOOK / DELCHAN / DELHOOK
+	if f.kind != "live" {
+		sel := drv.Ask(append([]string{"regsel", model.H(f.name), model.H(mkey)}, regOps...)...)
+		switch sel {
+		case "1":
+		case "0":
+			e.model = nil
+		default:
+			e.modelRaw = "regsel: " + sel
+		}
+	}
 	return e
+}
+
+// the bulk strings of a reply, depth first
+func flattenValue(v srv.Value) []string {
+	if v.Kind == '*' {
+		var out []string
+		for _, x := range v.Array {
+			out = append(out, flattenValue(x)...)
+		}
+		return out
+	}
+	return []string{v.Str}
+}
+
+func containsSeq(hay, needle []string) bool {
+	for i := 0; i+len(needle) <= len(hay); i++ {
+		ok := true
+		for j := range needle {
+			if hay[i+j] != needle[j] {
+				ok = false
+				break
+			}
+		}
+		if ok {
+			return true
+		}
+	}
+	return false
+}
+
+// fenceArgs: the arguments of SETCHAN name / SETHOOK name url / a live NEARBY for the fence as defined now
+func fenceArgs(rd *round, f *roamFence) []string {
+	key := rd.key
+	if f.offKey {
+		key += "-off"
+	}
+	args := []string{"NEARBY", key}
+	if f.detect != "" {
+		args = append(args, "DETECT", f.detect)
+	}
+	args = append(args, "FENCE")
+	if f.nodwell {
+		args = append(args, "NODWELL")
+	}
+	args = append(args, "ROAM", rd.roamKey, f.pattern, ff(f.meters))
+	if f.scan != "" {
+		args = append(args, "SCAN", f.scan)
+	}
+	return args
+}
+
+// regSet: the registry-history token of a SETCHAN / SETHOOK (see ocaml/roam/handlers.ml, regsel)
+func regSet(rd *round, f *roamFence, chan_, equal bool) string {
+	key := rd.key
+	if f.offKey {
+		key += "-off"
+	}
+	return strings.Join([]string{"S", model.H(f.name), model.B(chan_), model.H(key), model.B(f.detect == ""), model.B(equal)}, ",")
 }
 
 func sortEntries(l []entry) {
@@ -400,6 +481,7 @@ type round struct {
 	roamIDs      []string // ids living in roamKey when it differs from key
 	center       pos
 	baseR        float64
+	redefs       []redef // scripted re-definitions (steps of category "redef")
 }
 
 func runC20(r *hx.Result, cfg hx.Config) {
@@ -464,6 +546,32 @@ func runC20(r *hx.Result, cfg hx.Config) {
 				{"cab", pos{33.0005, -112.0005}, "corpus"}, {"car3", pos{33.0075, -112.008}, "corpus"}, {"car4", pos{33.004, -112.005}, "corpus"},
 				{"car2", pos{33, -111.98}, "corpus"}, {"car2", pos{33.0005, -112.0005}, "corpus"}, {"car2", pos{33.003, -112.004}, "corpus"},
 				{"car2", pos{33.02, -112}, "corpus"}}})
+	}
+	// a roaming fence re-defined under its own name between SETs (channel and webhook): radius 100 -> 500,
+	// identical re-issue, pattern, NODWELL, another key and back, DELCHAN + SETCHAN, DETECT inside and back
+	{
+		var redefs []redef
+		rs := func(fence int, mod string, meters float64, pattern string) step {
+			redefs = append(redefs, redef{fence: fence, mod: mod, meters: meters, pattern: pattern})
+			return step{id: strconv.Itoa(len(redefs) - 1), cat: "redef"}
+		}
+		set := func(id string, lat, lon float64) step { return step{id: id, p: pos{lat, lon}, cat: "corpus"} }
+		rdf := round{key: "redef", roamKey: "redef", fences: []roamFence{
+			{name: "redefchan", kind: "chan", pattern: "*", meters: 100},
+			{name: "redefhook", kind: "hook", pattern: "*", meters: 100},
+			{name: "redefctl", kind: "chan", pattern: "*", meters: 500}},
+			script: []step{set("a", 20, 20), set("b", 20.0005, 20), set("c", 20.003, 20),
+				rs(0, "radius", 500, ""), rs(1, "radius", 500, ""),
+				set("c", 20.003, 20), set("d", 20.002, 20.002), set("a", 20.001, 20), set("c", 20.02, 20),
+				rs(0, "same", 0, ""), rs(1, "same", 0, ""), set("c", 20.003, 20),
+				rs(0, "pattern", 0, "[ab]"), rs(1, "nodwell", 0, ""), set("d", 20.0005, 20.0005), set("d", 20.0006, 20.0005),
+				rs(0, "key", 0, ""), set("a", 20.0011, 20), rs(0, "key", 0, ""), set("a", 20.001, 20),
+				rs(0, "delset", 0, ""), rs(1, "delset", 0, ""), set("b", 20.0006, 20),
+				rs(0, "detect", 0, ""), set("b", 20.0005, 20), rs(0, "detect", 0, ""), set("b", 20.0004, 20),
+				rs(0, "del", 0, ""), set("b", 20.0005, 20), rs(0, "del", 0, ""), set("b", 20.0006, 20),
+				rs(0, "kind", 0, ""), rs(1, "kind", 0, ""), set("a", 20.03, 20)}}
+		rdf.redefs = redefs
+		corpus = append(corpus, rdf)
 	}
 	for i := range corpus {
 		runRound(r, cfg, rng, drv, s, wh, &corpus[i], fmt.Sprintf("corpus%d", i))
@@ -543,38 +651,129 @@ func runRound(r *hx.Result, cfg hx.Config, rng *rand.Rand, drv *model.Driver, s 
 	defer sub.Close()
 	var live *fencex.Live
 	var liveFence *roamFence
-	for i := range rd.fences {
-		f := &rd.fences[i]
-		args := []string{"NEARBY", rd.key}
-		if f.detect != "" {
-			args = append(args, "DETECT", f.detect)
-		}
-		args = append(args, "FENCE")
-		if f.nodwell {
-			args = append(args, "NODWELL")
-		}
-		args = append(args, "ROAM", rd.roamKey, f.pattern, ff(f.meters))
-		if f.scan != "" {
-			args = append(args, "SCAN", f.scan)
-		}
+	var regOps []string // this round's history of hook commands, for the registry model
+	hookExpected := map[string][]string{}
+	// define issues SETCHAN / SETHOOK for the fence as it is now described; want = the expected integer reply
+	// (1 = created or replaced, 0 = identical to the existing definition)
+	define := func(f *roamFence, want int64, equal bool) {
+		args := fenceArgs(rd, f)
+		var v srv.Value
 		switch f.kind {
 		case "chan":
-			v := c.MustDo(append([]string{"SETCHAN", f.name}, args...)...)
-			if v.IsErr() {
-				panic("SETCHAN refused: " + v.String())
-			}
+			v = c.MustDo(append([]string{"SETCHAN", f.name}, args...)...)
 		case "hook":
-			v := c.MustDo(append([]string{"SETHOOK", f.name, wh.URL("/" + f.name)}, args...)...)
-			if v.IsErr() {
-				panic("SETHOOK refused: " + v.String())
-			}
+			v = c.MustDo(append([]string{"SETHOOK", f.name, wh.URL("/" + f.name)}, args...)...)
+		}
+		if v.IsErr() {
+			panic("SETCHAN/SETHOOK refused: " + v.String())
+		}
+		regOps = append(regOps, regSet(rd, f, f.kind == "chan", equal))
+		if v.Kind != ':' || v.Int != want {
+			r.Fail(hx.Failure{Kind: "oracle", Signature: "roam-sethook-reply", What: fmt.Sprintf("SETCHAN/SETHOOK %s answered %s, expected %d (1 = created or replaced, 0 = unchanged)", f.name, v.String(), want),
+				Case: map[string]interface{}{"round": label, "args": strings.Join(args, " ")}})
+		}
+	}
+	for i := range rd.fences {
+		f := &rd.fences[i]
+		switch f.kind {
+		case "chan", "hook":
+			define(f, 1, false)
 		case "live":
-			live, err = fencex.NewLive(s, args...)
+			live, err = fencex.NewLive(s, fenceArgs(rd, f)...)
 			if err != nil {
 				panic(err)
 			}
 			defer live.Close()
 			liveFence = f
+		}
+	}
+	// redefine: the fence is re-defined under its own name (or deleted / re-created); afterwards it must
+	// still be listed with its new definition (CHANS / HOOKS), and the following SETs are compared with it
+	redefine := func(re redef) {
+		f := &rd.fences[re.fence]
+		if f.kind != "chan" && f.kind != "hook" {
+			return
+		}
+		isChan := f.kind == "chan"
+		if f.kind == "hook" {
+			// let the endpoint receive what is queued: replacing a hook closes its sender
+			wh.Wait("/"+f.name, len(hookExpected[f.name]), 8*time.Second)
+		}
+		del := func() {
+			cmd := map[bool]string{true: "DELCHAN", false: "DELHOOK"}[isChan]
+			if v := c.MustDo(cmd, f.name); v.IsErr() {
+				panic(cmd + " refused: " + v.String())
+			}
+			regOps = append(regOps, strings.Join([]string{"D", model.H(f.name), model.B(isChan)}, ","))
+		}
+		r.Dist("redefine:" + re.mod)
+		if f.deleted && re.mod != "del" {
+			// any re-definition of a deleted fence creates it
+			f.deleted = false
+			switch re.mod {
+			case "radius":
+				f.meters = re.meters
+			case "pattern":
+				f.pattern = re.pattern
+			}
+			define(f, 1, false)
+		} else {
+			switch re.mod {
+			case "radius":
+				same := f.meters == re.meters
+				f.meters = re.meters
+				define(f, map[bool]int64{true: 0, false: 1}[same], same)
+			case "pattern":
+				same := f.pattern == re.pattern
+				f.pattern = re.pattern
+				define(f, map[bool]int64{true: 0, false: 1}[same], same)
+			case "nodwell":
+				f.nodwell = !f.nodwell
+				define(f, 1, false)
+			case "key":
+				f.offKey = !f.offKey
+				define(f, 1, false)
+			case "detect":
+				f.detect = map[bool]string{true: "inside", false: ""}[f.detect == ""]
+				define(f, 1, false)
+			case "same": // control: identical re-issue takes the Equals early return
+				define(f, 0, true)
+			case "delset":
+				del()
+				define(f, 1, false)
+			case "del":
+				if f.deleted {
+					f.deleted = false
+					define(f, 1, false)
+				} else {
+					del()
+					f.deleted = true
+				}
+			case "kind": // a hook and a channel cannot share a name: refused, nothing changes
+				var v srv.Value
+				if isChan {
+					v = c.MustDo(append([]string{"SETHOOK", f.name, wh.URL("/" + f.name)}, fenceArgs(rd, f)...)...)
+				} else {
+					v = c.MustDo(append([]string{"SETCHAN", f.name}, fenceArgs(rd, f)...)...)
+				}
+				regOps = append(regOps, regSet(rd, f, !isChan, false))
+				if !v.IsErr() {
+					r.Fail(hx.Failure{Kind: "oracle", Signature: "roam-sethook-reply", What: "a hook and a channel were allowed to share the name " + f.name + ": " + v.String(), Case: label})
+				}
+			}
+		}
+		// listed: CHANS / HOOKS name shows the fence exactly when it is defined, with its current arguments
+		cmd := map[bool]string{true: "CHANS", false: "HOOKS"}[isChan]
+		lv := c.MustDo(cmd, f.name)
+		listing := lv.String()
+		leaves := flattenValue(lv)
+		listed := false
+		for _, l := range leaves {
+			listed = listed || l == f.name
+		}
+		if listed != !f.deleted || (listed && !containsSeq(leaves, fenceArgs(rd, f))) {
+			r.Fail(hx.Failure{Kind: "oracle", Signature: "roam-listing", What: fmt.Sprintf("%s %s after the re-definition (%s) does not show the fence as defined (defined=%v, arguments %q)", cmd, f.name, re.mod, !f.deleted, strings.Join(fenceArgs(rd, f), " ")),
+				Case: label, Impl: listing})
 		}
 	}
 	state := map[string]map[string]pos{rd.key: {}, rd.roamKey: {}}
@@ -608,7 +807,6 @@ func runRound(r *hx.Result, cfg hx.Config, rng *rand.Rand, drv *model.Driver, s 
 		}
 	}
 	sub.Collect() // drop what the setup produced
-	hookExpected := map[string][]string{}
 	n := rd.nsteps
 	if rd.script != nil {
 		n = len(rd.script)
@@ -659,7 +857,25 @@ func runRound(r *hx.Result, cfg hx.Config, rng *rand.Rand, drv *model.Driver, s 
 				sub.Collect()
 				continue
 			}
+			if st.cat == "redef" {
+				k, _ := strconv.Atoi(st.id)
+				redefine(rd.redefs[k])
+				sub.Collect()
+				continue
+			}
 		} else {
+			// between two SETs, now and then, a fence of the round is re-defined under its own name
+			if i >= len(rd.ids) && rng.Intn(4) == 0 {
+				mods := []string{"radius", "radius", "pattern", "pattern", "nodwell", "key", "same", "delset", "del", "kind", "detect"}
+				re := redef{fence: rng.Intn(len(rd.fences)), mod: mods[rng.Intn(len(mods))]}
+				re.meters = math.Round(rd.baseR*[]float64{1, 0.5, 2, 1.5, 0.25}[rng.Intn(5)]*1000) / 1000
+				re.pattern = roamPatterns[rng.Intn(len(roamPatterns))]
+				if f := rd.fences[re.fence]; f.scan != "" && re.mod == "pattern" {
+					re.mod = "radius" // the SCAN fence keeps its neighbour pattern
+				}
+				redefine(re)
+				sub.Collect()
+			}
 			st.id = rd.ids[rng.Intn(len(rd.ids))]
 			if i < len(rd.ids) {
 				st.id = rd.ids[i] // populate first
@@ -730,7 +946,7 @@ func runRound(r *hx.Result, cfg hx.Config, rng *rand.Rand, drv *model.Driver, s 
 		}
 		for fi := range rd.fences {
 			f := rd.fences[fi]
-			e := expect(drv, f, rd.key, rd.roamKey, st.id, old, st.p, state[rd.roamKey])
+			e := expect(drv, f, rd.key, rd.roamKey, st.id, old, st.p, state[rd.roamKey], regOps)
 			var got []fencex.Msg
 			switch f.kind {
 			case "chan":
@@ -778,6 +994,8 @@ func runRound(r *hx.Result, cfg hx.Config, rng *rand.Rand, drv *model.Driver, s 
 	c.MustDo("PDELCHAN", "tiny*")
 	c.MustDo("PDELCHAN", "cycle*")
 	c.MustDo("PDELCHAN", "pcls*")
+	c.MustDo("PDELCHAN", "redef*")
+	c.MustDo("PDELHOOK", "redef*")
 	c.MustDo("PDELHOOK", rd.key+"*")
 }
 
@@ -786,6 +1004,12 @@ func checkStep(drv *model.Driver, r *hx.Result, rd *round, f roamFence, st step,
 	cs := map[string]interface{}{"round": label, "step": idx, "fence": fmt.Sprintf("%s NEARBY %s%s FENCE%s ROAM %s %s %s", f.kind, rd.key,
 		map[bool]string{true: " DETECT " + f.detect, false: ""}[f.detect != ""], map[bool]string{true: " NODWELL", false: ""}[f.nodwell], rd.roamKey, f.pattern, ff(f.meters)),
 		"set": "SET " + rd.key + " " + st.id + " " + strings.Join(setGeom(rd.key, st.id, st.p), " "), "category": st.cat}
+	if f.offKey || f.deleted {
+		cs["fence"] = fmt.Sprintf("%s (now fencing %s-off: %v, deleted: %v)", cs["fence"], rd.key, f.offKey, f.deleted)
+	}
+	if f.kind != "live" {
+		cs["name"] = f.name
+	}
 	if old != nil {
 		cs["previous"] = fmt.Sprintf("%s %s", ff(old.lat), ff(old.lon))
 	}
